@@ -58,6 +58,12 @@ def main():
                 _poison(int(np.float32(r) * len(x)), pv)
             ys, xs = M.stratified_subsampling(Y, X, np.float32(r), fv)
             out.append([ys.tolist(), xs.tolist(), int(np.float32(r) * len(x))])
+    elif mode == 'numba_mi':
+        from outrank.algorithms import importance_estimator as IE
+        import logging
+        logging.disable(logging.CRITICAL)
+        for y, x, heuristic, ratio in req['cases']:
+            out.append(float(IE.numba_mi(np.asarray(y, dtype=np.int64), np.asarray(x, dtype=np.int64), heuristic, ratio)))
     elif mode == 'final':
         # floor(float32(r) * n) exactly as the code computes it (no estimator call)
         for n, r in req['cases']:
